@@ -107,6 +107,7 @@ def generate(repo):
     ok = "if (((rule->opcode >= CTO_Space) && (rule->opcode < CTO_UpLow))) dots->definitionRule = ruleOffset;" in txt
     out.append("Definition back_last_definition_wins : bool := %s.\n" % ("true" if ok else "false"))
     out.append(passfind_facts(repo))
+    out.append(rebucket_facts(repo, consts))
     return "".join(out)
 
 
@@ -131,3 +132,23 @@ def passfind_facts(repo):
     out.append("Definition passfind_takes (count lookback : Z) : bool := %s.\n" % to.b(cparse.parse_expr(m.group(1))))
     out.append("Definition passfind_length (count lookback : Z) : Z := %s.\n" % to.z(cparse.parse_expr(m.group(2))))
     return "".join(out)
+
+
+def rebucket_facts(repo, consts):
+    """finalizeTable: a case-sensitive (context) rule is moved to the bucket of its case-folded characters and linked in
+    before the member r of that chain for which this holds"""
+    import re
+    src = source(repo, "compileTranslationTable.c")
+    body = cparse.find_function(src, "finalizeTable")
+    body = body if isinstance(body, str) else body[1]
+    flat = " ".join(body.split())
+    m = re.search(r"while \(\*insert_at\) \{ TranslationTableRule \*r = \(TranslationTableRule \*\)&table->ruleArea\[\*insert_at\]; "
+                  r"if \(((?:[^()]|\([^()]*\))*)\) break; else if \(((?:[^()]|\([^()]*\))*)\) break; insert_at = &r->charsnext; \}", flat)
+    if not m:
+        raise cparse.ParseError("finalizeTable: rebucketing loop not recognised")
+    if not re.search(r"if \(rule->opcode == CTO_Context\) \{ unsigned long int hash = _lou_stringHash\(&rule->charsdots\[0\], 1, table\);", flat):
+        raise cparse.ParseError("finalizeTable: only context rules are expected to be moved")
+    to = cparse.ToZ({"rule->charslen": "new_len", "r->charslen": "r_len", "rule->opcode": "new_op", "r->opcode": "r_op"}, consts)
+    c1, c2 = to.b(cparse.parse_expr(m.group(1))), to.b(cparse.parse_expr(m.group(2)))
+    return ("\n(* finalizeTable: a context rule moved to the bucket of its case-folded characters is linked in before chain member r\n"
+            "   when this holds *)\nDefinition rebucket_before (new_len new_op r_len r_op : Z) : bool :=\n  (%s) || (%s).\n" % (c1, c2))
